@@ -51,7 +51,7 @@ CLAIMED["C10"] = dict(
 )
 CLAIMED["C03"] = dict(
     category="other",
-    technique="contract-based deductive verification of rewrite_lines/rewrite_files (array-modelled lines, quantified match facts, loop invariants; z3) plus a bounded generated-project shadow for the end-to-end statement",
+    technique="contract-based deductive verification of rewrite_lines/rewrite_files, parse._has_overlap and the generator parse._iter_for_pattern (array-modelled lines, quantified match facts, loop invariants, regex search as an uninterpreted function; z3) plus a bounded generated-project shadow for the end-to-end statement",
     text="Proved: rewrite_lines (v1 and v2) replaces, on a line with one or with two occurrences of different patterns, every matched span by the rendering of the new version through the normalised pattern and keeps the rest of the line; returns only if every pattern matched; rewrite_files writes exactly the configured files. Bounded (never counted as proved): placeholder expansion, rendering and the config file's own line, exercised end to end on generated projects through the real CLI.",
     note=TB + "iter_matches is used through its contract (matches within their line, disjoint per line); lines with three or more occurrences and {version}/{pep440_version} semantics are covered only by the bounded shadow.",
 )
@@ -93,9 +93,9 @@ CLAIMED["C02"] = dict(
 )
 CLAIMED["C07"] = dict(
     category="other",
-    technique="complete enumeration of the escape table through the real compilers (regex parse tree must consist of literals; every character of re's SPECIAL_CHARS must be mapped to its escaped form) + bounded end-to-end search; known findings reported by witness class",
+    technique="contract on the generator parse._iter_for_pattern (a line yields exactly when the compiled regex finds a non-empty match, reported truthfully; loop invariant, z3) + complete enumeration of the escape table through the real compilers (regex parse tree must consist of literals; every character of re's SPECIAL_CHARS must be mapped to its escaped form) + bounded end-to-end search; known findings reported by witness class",
     text="Exhausted (X): for all 67 admissible characters embedded in text, all ordered pairs and 29 multi-character regex constructs (quantifier braces, groups, lazy quantifiers, inline flags), for the v1 and the v2 compiler, the produced regex parses to exactly the literal characters; every character that re treats as special is compiled to its escaped form; the facts that make the sequential str.replace loop a character-wise map are checked on the real table (together: the all-lengths argument). Bounded (B): generated literals alone and wrapped around a real part find exactly the lines containing them.",
-    note="No deductive obligation is claimed here: the compilers are unbounded str.replace/re.subn surgery outside the solvers' reach (DESIGN 2/C07); X is complete only for the stated alphabet and lengths. Known findings KF-C07-inner-anchor and KF-C07-backslash-v2 are reported; any failure outside these two witness classes is a violation.",
+    note="No deductive obligation is claimed on the pattern compilers: they are unbounded str.replace/re.subn surgery outside the solvers' reach (DESIGN 2/C07); X is complete only for the stated alphabet and lengths. Known findings KF-C07-inner-anchor and KF-C07-backslash-v2 are reported; any failure outside these two witness classes is a violation.",
 )
 CLAIMED["C08"] = dict(
     category="other",
@@ -111,7 +111,7 @@ CLAIMED["C15"] = dict(
 )
 CLAIMED["C18"] = dict(
     category="other",
-    technique="contract-based verification of bumpver's own reader glue (_parse_cfg, _parse_toml, _set_raw_config_defaults: section precedence, boolean spellings, defaults; z3) over an abstract view of the library parsers, plus a bounded differential check of the real readers (configparser / toml) on sibling projects that differ only in syntax",
+    technique="contract-based verification of bumpver's own reader glue (_parse_cfg, _parse_toml, _set_raw_config_defaults: section precedence, boolean spellings, defaults; call-site precondition that _ConfigParser is built in the default dialect of RawConfigParser; z3) over an abstract view of the library parsers, plus a bounded differential check of the real readers (configparser / toml) on sibling projects that differ only in syntax",
     text="Proved: _parse_toml hands on the settings of [tool.bumpver], else [bumpver], else [pycalver] unchanged with commit/tag/push taken as the TOML values or the defaults False/None/None; _parse_cfg hands on the strings of [pycalver] else [bumpver] and reads commit/tag/push as true exactly for the spellings 1/yes/true/on (case-insensitive), else the same defaults; both validate and default the returned dictionary through _set_raw_config_defaults, which is proved to change nothing but a missing file_patterns entry; _parse_config returns only if tag and push have commit, takes unset tag/push as False and the strings unquoted; _parse_current_version_default_pattern returns the first current_version line inside a [bumpver]/[tool.bumpver]/[pycalver] section (loop invariant over a ghost in-section function) with the version pattern put in. Bounded (never counted as proved): seeded abstract configurations are rendered in six syntaxes (setup.cfg [bumpver]/[pycalver], pyproject.toml, bumpver.toml, .bumpver.toml, pycalver.toml) with every accepted boolean spelling, quoting style, 0..4 files x 1..3 patterns, glob entries, scopes and missing optional keys; config.init must return the same effective settings, always including the config file's own current_version line.",
     note=TB + "The library parsers (configparser, toml) are assumed to deliver sections as dictionaries (A-lib; executed for real in the bounded matrix). _parse_cfg_file_patterns, _compile_file_patterns and the glob expansion are not under contract: the statement as a whole is claimed only at the bounded level (category other).",
 )
